@@ -100,6 +100,20 @@ def run_case(ctx, i, rng):
             return
         ctx.count("reader_produced_netlists")
         ctx.count("bundled:" + os.path.basename(f))
+        if rng.random() < 0.5:
+            # long (generate-style) instance and net names: every name is legal, the flat path names get longer than any
+            # identifier may be
+            k_ = 0
+            for l_ in n.libraries:
+                for d_ in l_.definitions:
+                    for x_ in list(d_.children) + list(d_.cables)[:2]:
+                        if x_.name and len(x_.name) < 60 and not (isinstance(x_, sdn.Cable) and len(x_.wires) != 1):
+                            try:
+                                x_.name = x_.name + "_gen_" + "blk%d_" % k_ * rng.randint(12, 25)
+                                k_ += 1
+                            except ValueError:
+                                pass
+            ctx.count("long_names_under_the_edif_policy", k_)
     else:
         n = gen_ir.generate(rng, profile="flatten", share=0.6, ndefs=rng.randint(3, 9), max_children=rng.choice([2, 3, 4]),
                             outside=(i % 4 == 0))
